@@ -15,7 +15,7 @@ from .facts import CACHE
 from .interp import shape, PathLimit, Unsupported
 from .typestate import (Typestate, select_summaries, STATES, val_str, materialize, FLOW, find_flows,
                         valuation_of)
-from .tables import ref, continue_from
+from .tables import ref, continue_from, contains_bytes
 from .panics import inventory, reachable_from, d2_discharge, public_api, foreign_discharge
 
 OPAQUE_EXTRA = {"try_parse_response", "try_parse_partial_response", "try_parse_request",
@@ -238,8 +238,13 @@ def rule_selectors(ctx):
             bad.append("await_100_continue not initialised")
         elif aw[0] == "term" and aw[1][0] == "call" and "has_expect_100" in repr(aw[1]):
             pass
+        elif aw[0] == "term" and aw[1][0] == "app" and aw[1][1].endswith("HeaderIterExt>::has") and contains_bytes(aw[1], b"expect") \
+                and contains_bytes(aw[1], b"100-continue") and "('in', 'req')" in repr(aw[1]):
+            pass        # the header predicate as an uninterpreted application (its loop form)
         elif aw[0] == "int":
             vals = set(v[1] for k, v in expect_atoms if v[0] == "bool" and "Iterator::any" in k[1])
+            vals |= set(v[1] for k, v in o.state.facts.items() if v[0] == "bool" and k[0] == "app" and k[1].endswith("HeaderIterExt>::has")
+                        and contains_bytes(k, b"expect") and contains_bytes(k, b"100-continue"))
             if vals != {bool(aw[1])}:
                 bad.append("expect-100-pending is the constant %d on a path where the Expect test is %s" % (aw[1], sorted(vals) or "not decided"))
         else:
